@@ -27,12 +27,12 @@ NCPU = min(16, os.cpu_count() or 4)
 # runs per tier (fixed numbers: a tier explores the same runs every time for a given seed),
 # wall-clock guard in seconds after which no further run is ISSUED
 TIERS = {
-    "quick": {"C06": (6000, 70), "C13": (1500, 70), "C14": (3000, 60), "C15": (4000, 60), "C20": (9000, 60)},
+    "quick": {"C06": (6000, 70), "C13": (1500, 70), "C14": (2400, 60), "C15": (4000, 60), "C20": (9000, 60)},
     "thorough": {"C06": (60000, 900), "C13": (24000, 900), "C14": (40000, 1000), "C15": (50000, 900), "C20": (300000, 900)},
 }
 LEVEL = {"C06": "exploration", "C13": "fault_enumeration", "C14": "exploration", "C15": "exploration", "C20": "exploration"}
 NT_CAP = 120000  # per-worker cap on stored non-trivial case hashes
-HS_SAMPLE = {"quick": 400, "thorough": 6000}
+HS_SAMPLE = {"quick": 700, "thorough": 8000}
 
 RULES = {
     "C06": "cases = valid rate calls inside seeded closed-loop league histories (ratings fed back, restarts, per-call tau/limit_sigma), each checked against the per-game sigma bounds and its players' trajectory bounds; non-trivial = the bound was tight to 1e-6, the limit_sigma clamp fired, the kappa floor was hit, or a Thurstone-Mosteller pair 5-8.3 combined sd apart ended in an upset/tie; distinct by hash of (model, prior values, outcome, options)",
